@@ -98,7 +98,7 @@ pub fn exec<T: Payload>(prop: &str, cfg: &ExecCfg, mut next: impl FnMut(&World<T
         }
         if world.diverged {
             let cyclic = out.viols.iter().any(|v| v.prop == "C02");
-            if (prop == "C01" || prop == "C02") && !world.blind && !blind_used && !cyclic {
+            if (prop == "C01" || prop == "C02" || prop == "C10") && !world.blind && !blind_used && !cyclic {
                 // C01 / C02 are model-free: go on blind (ids live in the real arena, only the
                 // structural invariants are evaluated), so that damage that needs further steps
                 // to turn into a malformed or cyclic forest is still found
